@@ -89,6 +89,10 @@ def service_cases(tier, inst):
     if tier == "quick":
         for ms in P.stream_multisets(inst, K, 2, cps=(1, 2), dts=(1,), iso=True):
             yield {"streams": ms, "uset": 1, "inst": list(inst)}
+    # temperatures with 5 decimals: a pinch temperature must be reported as it is, not rounded with the stored tables
+    fine = (inst[0] + 0.00004, inst[1] + 0.00003, inst[2], inst[3])
+    for ms in P.stream_multisets(fine, K, 2, cps=(1, 2), dts=(0, 1), iso=True):
+        yield {"streams": ms, "uset": 0, "inst": list(fine)}
     # zero-crossing family: lattice translated so that it contains 0.0 and a negative temperature (a pinch at exactly 0.0)
     z = A.zero_inst(inst)
     for ms in P.stream_multisets(z, K, 2 if tier == "quick" else 3, cps=(1, 2), dts=(0, 1), iso=True):
